@@ -155,6 +155,9 @@ func (w *Walker) funcValueOf(fun ast.Expr, st *State) *FuncVal {
 // callFuncVal: a call through a resolved function value.
 func (w *Walker) callFuncVal(call *ast.CallExpr, fv *FuncVal, st *State, nres int) []callRes {
 	if fv.Fn != nil {
+		saved := w.viaValue
+		w.viaValue = true
+		defer func() { w.viaValue = saved }()
 		return w.callInternalRecv(call, fv.Fn, st, nres, fv.Recv)
 	}
 	_, args, sts := w.evalCallOperands(call, st)
